@@ -557,3 +557,126 @@ fn pop_frame_one_data(eos: bool) {
 }
 pub fn c02_emit_pop_frame_data() { pop_frame_one_data(false) }
 pub fn c02_emit_pop_frame_data_eos() { pop_frame_one_data(true) }
+
+// ---------------------------------------------------------------------------
+// reclaim_frame_inner / push_back_frame (C01.reclaim, C20.window)
+// ---------------------------------------------------------------------------
+/// The codec hands back a DATA frame whose `Take` window (n bytes of sz) was written.
+/// mode 0: stream untouched meanwhile (in_flight = DataFrame(key));
+/// mode 1: the stream's queue was cleared in the unlocked window (in_flight = Drop).
+fn reclaim_case(mode: u8, queued_behind: bool) {
+    let mut w = world(3);
+    {
+        let mut p = w.store.resolve(w.key);
+        st_h::set_inner_open_streaming(&mut p.state);
+    }
+    let sz: usize = kani::any();
+    let n: usize = kani::any();
+    let off: usize = kani::any();
+    kani::assume(sz as u64 <= MAXW as u64 && n <= sz && off <= (1usize << 40));
+    let eos: bool = kani::any();
+    // what pop_frame produced: Take limited to n, END_STREAM cleared on a partial piece
+    let mut d = frame::Data::new(StreamId::from(ID), Prioritized {
+        inner: bytes::Buf::take(SymBuf { off, rem: sz }, n),
+        end_of_stream: eos,
+        stream: w.key,
+    });
+    d.set_end_stream(eos && n == sz);
+    // the codec wrote the whole window
+    d.payload_mut().inner.advance(n);
+    if queued_behind {
+        // another frame of the stream is already queued behind the in-flight one
+        let mut p = w.store.resolve(w.key);
+        let f2 = frame::Data::new(StreamId::from(ID), SymBuf { off: off + sz, rem: 7 });
+        p.pending_send.push_back(&mut w.buffer, f2.into());
+    }
+    let pre = sym_pre(&mut w, None);
+    match mode {
+        0 => set_in_flight(&mut w.prio, Some(w.key)),
+        _ => w.prio.in_flight_data_frame = InFlightData::Drop,
+    }
+    let r = w.prio.reclaim_frame_inner(&mut w.buffer, &mut w.store, d);
+    assert!(in_flight_is_nothing(&w.prio), "in-flight marker not cleared");
+    let q = post(&mut w);
+    assert!(q.a == pre.a && q.ca == pre.ca && q.w == pre.w && q.cw == pre.cw && q.buffered == pre.buffered, "reclaim must not touch the ledgers");
+    let mut p = w.store.resolve(w.key);
+    if mode == 0 && n < sz {
+        assert!(r, "unwritten tail not reported as reclaimed");
+        // the tail is at the FRONT of the stream's queue, with END_STREAM restored
+        match p.pending_send.pop_front(&mut w.buffer) {
+            Some(Frame::Data(t)) => {
+                assert!(t.payload().off == off + n && t.payload().rem == sz - n, "C01.reclaim: tail is not bytes [off+n, off+sz)");
+                assert!(t.is_end_stream() == eos, "C01.reclaim: END_STREAM not restored on the tail");
+                std::mem::forget(t);
+            }
+            _ => panic!("C01.reclaim: tail not pushed to the front of the stream's queue"),
+        }
+        if pre.a > 0 {
+            assert!(p.is_pending_send, "Q2: stream with capacity and an unwritten tail not rescheduled");
+        }
+    } else {
+        assert!(!r, "nothing to reclaim but reported as reclaimed");
+        if queued_behind {
+            match p.pending_send.pop_front(&mut w.buffer) {
+                Some(Frame::Data(t)) => {
+                    assert!(t.payload().off == off + sz, "queue disturbed although nothing was reclaimed");
+                    std::mem::forget(t);
+                }
+                _ => panic!("queued frame lost"),
+            }
+        }
+        assert!(p.pending_send.is_empty(), "C20.window: frame of a cleared stream re-queued / spurious frame");
+    }
+    kani::cover!(r, "tail_requeued");
+    kani::cover!(!r && mode == 0, "fully_written");
+    kani::cover!(true, "end");
+    forget(w);
+}
+pub fn c01_reclaim_tail() { reclaim_case(0, false) }
+pub fn c01_reclaim_tail_queue_behind() { reclaim_case(0, true) }
+pub fn c20_window_reclaim_after_clear() { reclaim_case(1, false) }
+
+/// reclaim without a frame in flight is a precondition violation (panics, never corrupts)
+pub fn c20_window_reclaim_nothing_in_flight() {
+    let mut w = world(3);
+    let d = frame::Data::new(StreamId::from(ID), Prioritized {
+        inner: bytes::Buf::take(SymBuf { off: 0, rem: 10 }, 4),
+        end_of_stream: false,
+        stream: w.key,
+    });
+    set_in_flight(&mut w.prio, None);
+    kani::cover!(true, "end");
+    let _ = w.prio.reclaim_frame_inner(&mut w.buffer, &mut w.store, d);
+    assert!(false, "MARK reclaim accepted a frame although none was in flight");
+}
+
+/// clear_queue in the unlocked flush window marks the in-flight frame as dropped
+/// (so reclaim will not resurrect it), empties the queue and zeroes the counters.
+pub fn c20_window_clear_queue_marks_drop() {
+    let mut w = world(3);
+    let in_flight: bool = kani::any();
+    {
+        let mut p = w.store.resolve(w.key);
+        let f1 = frame::Data::new(StreamId::from(ID), SymBuf { off: 0, rem: 5 });
+        p.pending_send.push_back(&mut w.buffer, f1.into());
+        let f2 = frame::Reset::new(StreamId::from(ID), Reason::CANCEL);
+        p.pending_send.push_back(&mut w.buffer, f2.into());
+    }
+    let _pre = sym_pre(&mut w, None);
+    set_in_flight(&mut w.prio, if in_flight { Some(w.key) } else { None });
+    {
+        let mut p = w.store.resolve(w.key);
+        w.prio.clear_queue(&mut w.buffer, &mut p);
+    }
+    let p = w.store.resolve(w.key);
+    assert!(p.pending_send.is_empty() && p.buffered_send_data == 0 && p.requested_send_capacity == 0);
+    assert!(buf_h::slab_len(&w.buffer) == 0, "frames leaked in the send buffer");
+    if in_flight {
+        assert!(in_flight_is_drop(&w.prio), "C20.window: in-flight DATA of a cleared stream would be re-queued on reclaim");
+    } else {
+        assert!(in_flight_is_nothing(&w.prio));
+    }
+    kani::cover!(in_flight, "in_flight");
+    kani::cover!(true, "end");
+    forget(w);
+}
